@@ -22,7 +22,7 @@ RULE = ("history = a configuration endpoint and up to 8 node servers behind one 
         "nodes with distinct host names, IPs and ports), use_vpc on/off, use_pooling on/off; between reconfigurations "
         "20-200 keys are written and read. The 'config get cluster' reply is delivered under every 1-cut and 2-cut "
         "segmentation (systematic; around the node line and the end token for long replies) and drawn piece lists. "
-        "Separately the endpoint answers ERROR. Oracle (fake network log + per-node command logs): after construction "
+        "Optionally nodes fail between two reconfigurations (traffic marks them failing or dead), heal, and discovery runs again. Separately the endpoint answers ERROR. Oracle (fake network log + per-node command logs): after construction "
         "and every reconfigure the rotation's node names equal the advertised (ip|host, port) set; every address the "
         "client connects to while routing the corpus is advertised (with >= 50 keys and <= 6 nodes: all advertised "
         "nodes are used); no command reaches a node that is no longer advertised; every key-addressed call succeeds; "
@@ -118,7 +118,7 @@ def check(case):
     with virtual_time(w.clock):
         w.advertise(1, steps[0])
         r = bracket(lambda: AWSElastiCacheHashClient(CFG, socket_module=w.net, use_vpc=use_vpc, use_pooling=case.get("pooling", False),
-                                                     default_noreply=False, timeout=1))
+                                                     default_noreply=False, timeout=1, retry_attempts=case.get("retry_attempts", 2)))
         if r[0] == "exc":
             raise Violation(["construction-raises", type(r[1]).__name__], "construction raised %r: %s" % (r[1], desc))
         hc = r[1]
@@ -127,6 +127,19 @@ def check(case):
         shrunk = False
         for si, idxs in enumerate(steps):
             if si > 0:
+                # optionally some nodes fail between two reconfigurations: traffic marks them failing / dead, then they
+                # heal and the application re-runs discovery (what the docstring recommends after errors)
+                down = [j for j in (case.get("fail_before") or {}).get(str(si), []) if j in steps[si - 1]]
+                if down:
+                    labels.append("node-failure-before-reconfigure")
+                    for j in down:
+                        w.nodes[j].down = "refused"
+                    for t in range(10):
+                        w.clock.advance(2)
+                        for kk in range(6):
+                            bracket(hc.get, "probe-%d-%d" % (si, kk))          # errors are expected here and not judged
+                    for j in down:
+                        w.nodes[j].down = None
                 w.advertise(1 + si, idxs)
                 r = bracket(hc.reconfigure_nodes)
                 if r[0] == "exc":
@@ -200,13 +213,21 @@ def fixed_history_cases(tier, seed):
         for vpc in (True, False):
             for pooling in (False, True):
                 yield {"steps": h, "use_vpc": vpc, "pooling": pooling, "nkeys": 60}
+    # a node fails (and is marked failing / dead by traffic), heals, and discovery runs again
+    for h, fb in [([[0, 1, 2], [0, 1, 2]], {"1": [1]}), ([[0, 1, 2], [0, 1, 2, 3]], {"1": [0, 2]}), ([[0, 1], [1], [0, 1]], {"1": [0], "2": [1]}),
+                  ([[0, 1, 2], [0, 1, 2], [0, 1, 2]], {"1": [0, 1, 2], "2": [2]}), ([[4, 5], [4, 5]], {"1": [5]})]:
+        for ra in (0, 1, 2):
+            for vpc in (True, False):
+                yield {"steps": h, "fail_before": fb, "retry_attempts": ra, "use_vpc": vpc, "pooling": bool(ra % 2), "nkeys": 90}
 
 
 def history_strategy(tier):
     nodes = st.lists(st.integers(0, 7), min_size=1, max_size=6, unique=True)
     sched = st.one_of(st.none(), st.lists(st.sampled_from([1, 2, 3, 5, 8, 13, 50, 4096]), min_size=1, max_size=4))
+    fb = st.dictionaries(st.sampled_from(["1", "2", "3"]), st.lists(st.integers(0, 7), min_size=1, max_size=3, unique=True), max_size=2)
     return st.fixed_dictionaries({"steps": st.lists(nodes, min_size=1, max_size=6), "use_vpc": st.booleans(), "pooling": st.booleans(),
-                                  "nkeys": st.sampled_from([20, 60, 200]), "schedule": sched})
+                                  "nkeys": st.sampled_from([20, 60, 200]), "schedule": sched, "fail_before": fb,
+                                  "retry_attempts": st.sampled_from([0, 1, 2])})
 
 
 PARTS = [
